@@ -147,6 +147,19 @@ def psd3(draw):
     return V.tolist()
 
 
+def rotated(V):
+    """R V R^T for a fixed rotation, evaluated in floating point and NOT re-symmetrised: a covariance as callers really hold it
+    after rotating it between frames - symmetric to rounding, not bit for bit."""
+    c1, s1, c2, s2 = math.cos(0.3), math.sin(0.3), math.cos(1.1), math.sin(1.1)
+    R = np.array([[c1, -s1, 0.0], [s1, c1, 0.0], [0.0, 0.0, 1.0]]) @ np.array([[c2, 0.0, s2], [0.0, 1.0, 0.0], [-s2, 0.0, c2]])
+    return (R @ np.array(V, dtype=float) @ R.T).tolist()
+
+
+def psd3_as_held():
+    """psd3, two in three exactly symmetric, one in three symmetric only to rounding (see rotated)."""
+    return st.one_of(psd3(), psd3(), psd3().map(rotated))
+
+
 def fro(M):
     M = np.asarray(M, dtype=float)
     m = float(np.abs(M).max()) if M.size else 0.0
